@@ -270,6 +270,13 @@ class Ctx:
         s.harnesses.append(h); return h
 
     def _run_one(s, h):
+        res = s._run_one_inner(h)
+        if res.get('status') in ('broken', 'no_verdict') and 'status 15' in str(res.get('why')) + str(res.get('why2', '')):
+            time.sleep(5); res = s._run_one_inner(h)      # terminated from outside (SIGTERM): run it again once
+            if 'status 15' in str(res.get('why')): res['status'] = 'no_verdict'; res['why'] = 'terminated externally (SIGTERM) twice: ' + str(res.get('why'))[:200]
+        return res
+
+    def _run_one_inner(s, h):
         res = dict(name=h.name, desc=h.desc, functions=h.functions, stubs=h.stubs, bounds=h.bounds, backend=h.backend,
                    unwind=h.unwind, unwindset=h.unwindset)
         # cover twin first: reachability of every VF_REACH goal
